@@ -243,7 +243,13 @@ def run_check(pid, tier, seed, procs):
         "coverage": {
             "evaluations": agg["evals"],
             "distinct_nontrivial": distinct,
-            "rule": mod.RULE,
+            "rule": mod.RULE + (" Plus the soak family (vf/soak.py): long random API sessions "
+                                "mixing status pushes, exact repeats, commands (also from inside "
+                                "callbacks and while a frame trickles in), link faults with "
+                                "recovery, idle time, raising subscribers and shutdown + re-init "
+                                "under whole-run monitors; this check keeps the violations filed "
+                                "under its property (soak_* counters)."
+                                if getattr(mod, "SOAK", False) else ""),
             "samples": agg["samples"],
             "exhaustive": bool(getattr(mod, "EXHAUSTIVE", {}).get(tier, False)
                                and agg["exhaustive"] and not inconclusive),
